@@ -3,8 +3,9 @@ back equal: NetCDF4 (.nc/.h5) and CSV (.csv/.txt/.asc) data sets, every
 compression suffix, read_args / write_args / post_reader.
 
 The oracle is a plain comparison written here (names, dimensions, dtype kind,
-exact values; half a quantisation step for packed variables); it does not use
-xarray's or typhon's notion of equality.
+exact values; half a quantisation step for packed variables; for NetCDF also
+the global and the variables' attributes); it does not use xarray's or
+typhon's notion of equality.
 """
 import datetime as dt
 import multiprocessing
@@ -25,6 +26,12 @@ ASSUMPTIONS = [
     "CSV strings are non-empty and not numeric; CSV floats have short "
     "decimal representations (pandas' fast parser is not part of typhon)",
     "NetCDF cases run in a child process of the shard worker; no threads",
+    "attributes: only keys that neither CF decoding nor the netCDF4 library "
+    "interprets (no units of time variables, valid_*, _FillValue, "
+    "scale_factor ...); arrays have more than one element; CSV files hold no "
+    "attributes",
+    "compress=False is only combined with decompress=False; only the round "
+    "trip is demanded of such a fileset, not what the stored bytes are",
 ]
 
 T0, T1 = dt.datetime(2020, 2, 29, 6, 0), dt.datetime(2020, 2, 29, 12, 0)
@@ -51,18 +58,21 @@ def nc_specs():
     """Principal variable: dtype x number of dimensions x NaN x placement
     (root / pseudo group on root dimensions / nested group / group with its
     own dimensions / group with own, longer dimensions named like those of
-    the root) x order of the variables (the handler writes the groups in the
-    order of their first variable) x packing."""
+    the root / group with coordinates / a data set without any root variable)
+    x order of the variables (the handler writes the groups in the order of
+    their first variable) x packing (encoding of the variable / write_args of
+    the fileset / per-call arguments of write())."""
     out = []
 
     def orders(place):
-        return ("var-first",) if place == "root" else ("var-first",
-                                                       "ref-first")
+        # only one group to write: no order of groups
+        return ("var-first",) if place in ("root", "grouponly") else \
+            ("var-first", "ref-first")
     for dtype in ("i2", "i4", "i8", "f4", "f8", "bool", "str", "M8", "m8"):
         for ndim in (0, 1, 2):
             for nan in ((False, True) if dtype in ("f4", "f8") else (False,)):
                 for place in ("root", "group", "nested", "owndim",
-                              "samename", "groupcoords"):
+                              "samename", "groupcoords", "grouponly"):
                     if place in ("owndim", "samename", "groupcoords") \
                             and ndim == 0:
                         continue
@@ -75,7 +85,8 @@ def nc_specs():
             for nan in (False, True):
                 for place, packed in (("root", "encoding"),
                                       ("group", "encoding"),
-                                      ("root", "write_args")):
+                                      ("root", "write_args"),
+                                      ("root", "write_call")):
                     for order in orders(place):
                         out.append(dict(dtype=dtype, ndim=ndim, nan=nan,
                                         place=place, order=order,
@@ -87,18 +98,31 @@ OPTION_SPEC = dict(dtype="f8", ndim=1, nan=True, place="group", packed=None)
 NC_OPTIONS = ("fields", "mapping", "post_reader", "call_fields")
 
 
+PLAIN_SPEC = dict(dtype="f8", ndim=1, nan=True, place="group",
+                  order="var-first", packed=None)
+
+
 def nc_cases(tier):
+    """over: the period already holds another data set (`previous`);
+    transparent=False: a FileSet with compress=False, decompress=False."""
     every = suffixes(["nc"]) + ["h5"]
     out = []
     for spec in nc_specs():
         plain = spec["place"] == "root" and spec["ndim"] == 1
         for suffix in (every if tier == "thorough" or plain else ["nc"]):
-            out.append(dict(kind="nc", suffix=suffix, option=None, **spec))
+            for over in (False, True):
+                out.append(dict(kind="nc", suffix=suffix, option=None,
+                                over=over, transparent=True, **spec))
     for option in NC_OPTIONS:
         for order in ("var-first", "ref-first"):
             for suffix in (every if tier == "thorough" else ["nc", "nc.gz"]):
                 out.append(dict(kind="nc", suffix=suffix, option=option,
-                                order=order, **OPTION_SPEC))
+                                order=order, over=False, transparent=True,
+                                **OPTION_SPEC))
+    for suffix in suffixes(["nc"])[1:]:
+        for over in (False, True):
+            out.append(dict(kind="nc", suffix=suffix, option=None, over=over,
+                            transparent=False, **PLAIN_SPEC))
     return out
 
 
@@ -108,9 +132,17 @@ CSV_OPTIONS = ("index_col", "no_index", "sep", "fields", "post_reader")
 
 
 def csv_cases(tier):
-    return [dict(kind="csv", suffix=suffix, option=option, table=list(table))
-            for table in CSV_TABLES for option in CSV_OPTIONS
-            for suffix in suffixes(["csv", "txt", "asc"])]
+    out = [dict(kind="csv", suffix=suffix, option=option, table=list(table),
+                over=over, transparent=True)
+           for table in CSV_TABLES for option in CSV_OPTIONS
+           for suffix in suffixes(["csv", "txt", "asc"])
+           for over in (False, True)]
+    for suffix in suffixes(["csv"])[1:]:
+        for over in (False, True):
+            out.append(dict(kind="csv", suffix=suffix, option="index_col",
+                            table=list(CSV_TABLES[-1]), over=over,
+                            transparent=False))
+    return out
 
 
 def shards(tier):
@@ -167,7 +199,10 @@ def shaped(v, ndim, nan, longer=False):
 
 
 def nc_dataset(spec):
-    """-> (data set to store, name of the principal variable)"""
+    """-> (data set to store, name of the principal variable). Every data set
+    has global attributes (text, integer, float, array) and attributes of
+    variables and coordinates in the root and in groups; none of them is a
+    key that CF decoding consumes."""
     import numpy as np
     import xarray as xr
     v = packed_values(spec["dtype"], spec["nan"]) if spec["packed"] else \
@@ -176,28 +211,57 @@ def nc_dataset(spec):
     name = {"root": "v", "nested": "a/b/v",
             "groupcoords": "grp/v"}.get(place, "g/v")
     dims = [(), ("n",), ("m", "n")][spec["ndim"]]
-    if place == "owndim":
-        dims = [None, ("g/k",), ("g/j", "g/k")][spec["ndim"]]
+    if place in ("owndim", "grouponly"):
+        dims = [(), ("g/k",), ("g/j", "g/k")][spec["ndim"]]
     elif place == "samename":
         dims = [None, ("g/n",), ("g/m", "g/n")][spec["ndim"]]
     elif place == "groupcoords":
         dims = [None, ("grp/x",), ("grp/y", "grp/x")][spec["ndim"]]
-    variables = [(name, (dims, shaped(v, spec["ndim"], spec["nan"],
-                                      longer=place == "samename"))),
-                 ("ref", ("n", np.array([0.0, 1.0, 2.0]))),
-                 ("ref2", ("m", np.array([0.0, 1.0])))]
+    attrs = {"long_name": "principal variable", "level": 7}
+    if spec["dtype"] not in ("M8", "m8"):
+        attrs["units"] = "K"
+    principal = (name, (dims, shaped(v, spec["ndim"], spec["nan"],
+                                     longer=place == "samename"), attrs))
+    if place == "grouponly":
+        variables = [principal, ("g/ref", ("g/k", np.array([0.0, 1.0, 2.0]),
+                                           {"units": "metre", "weight": 0.5}))]
+        coords = {}
+    else:
+        variables = [principal,
+                     ("ref", ("n", np.array([0.0, 1.0, 2.0]),
+                              {"units": "metre", "weight": 0.5})),
+                     ("ref2", ("m", np.array([0.0, 1.0])))]
+        coords = {"n": ("n", np.array([10, 20, 30], "i4"), {"axis": "X"})}
     if spec["order"] == "ref-first":
         variables = variables[1:] + variables[:1]
-    coords = {"n": ("n", np.array([10, 20, 30], "i4"))}
     if place == "groupcoords":
         # dimension coordinate and an auxiliary coordinate that live in a
         # group with a name of several characters
-        coords["grp/x"] = ("grp/x", np.array([5, 6, 7], "i4"))
-        coords["grp/lat"] = ("grp/x", np.array([0.5, 1.5, 2.5]))
-    ds = xr.Dataset(dict(variables), coords=coords)
+        coords["grp/x"] = ("grp/x", np.array([5, 6, 7], "i4"), {"axis": "X"})
+        coords["grp/lat"] = ("grp/x", np.array([0.5, 1.5, 2.5]),
+                             {"units": "degrees_north"})
+    ds = xr.Dataset(dict(variables), coords=coords,
+                    attrs={"title": "round trip", "count": 3, "factor": 1.5,
+                           "levels": np.array([1, 2, 3], "i4")})
     if spec["packed"] == "encoding":
         ds[name].encoding = dict(PACKING)
     return ds, name
+
+
+def previous(fmt):
+    """What the period holds before an overwrite: other variables, other
+    groups, a longer dimension of the same name, another global attribute
+    (NetCDF); more rows and other columns (CSV)."""
+    import numpy as np
+    import xarray as xr
+    if fmt == "csv":
+        return xr.Dataset({"extra": ("i", np.arange(5)),
+                           "more": ("i", np.arange(5) + 0.5)},
+                          coords={"i": ("i", np.arange(5))})
+    return xr.Dataset({"stale": ("n", np.arange(5.0), {"units": "s"}),
+                       "g/old": ("g/k", np.array([1, 2])),
+                       "zz/deep/w": ("n", np.arange(5.0))},
+                      coords={"n": ("n", np.arange(5))}, attrs={"old": 1})
 
 
 def csv_dataset(table, dim):
@@ -236,6 +300,19 @@ def cells(arr):
     return arr.reshape(-1).tolist()
 
 
+def attrs_differ(expected, got):
+    """Same keys; same kind, shape and cells of every value."""
+    import numpy as np
+    if sorted(expected) != sorted(got):
+        return True
+    for key, e in expected.items():
+        e, g = np.asarray(e), np.asarray(got[key])
+        if kind_of(e) != kind_of(g) or e.shape != g.shape \
+                or cells(e) != cells(g):
+            return True
+    return False
+
+
 def differ(fmt, expected, got, packed_name=None):
     """None or (key, expected, observed)."""
     import numpy as np
@@ -244,6 +321,18 @@ def differ(fmt, expected, got, packed_name=None):
     en, gn = sorted(expected.variables), sorted(got.variables)
     if en != gn:
         return (fmt + "/variables-differ", en, gn)
+    # a CSV file cannot hold attributes
+    if fmt == "netcdf":
+        if attrs_differ(expected.attrs, got.attrs):
+            rootless = all("/" in name for name in en)
+            return ("netcdf/global-attributes-differ" +
+                    ("[no-variable-in-the-root-group]" if rootless else ""),
+                    dict(expected.attrs), dict(got.attrs))
+        for name in en:
+            if attrs_differ(expected[name].attrs, got[name].attrs):
+                return ("netcdf/variable-attributes-differ",
+                        [name, dict(expected[name].attrs)],
+                        [name, dict(got[name].attrs)])
     for name in en:
         e, g = expected[name], got[name]
         if tuple(e.dims) != tuple(g.dims) or e.shape != g.shape:
@@ -277,11 +366,13 @@ def differ(fmt, expected, got, packed_name=None):
 
 def nc_setup(case):
     """-> (stored data set, FileSet kwargs, expected result of a read,
-    per-call read arguments, principal variable, packed?)"""
+    per-call read arguments, per-call write arguments, principal variable)"""
     ds, name = nc_dataset(case)
-    kwargs, call_args, expected = {}, {}, ds
+    kwargs, call_args, write_call, expected = {}, {}, {}, ds
     if case["packed"] == "write_args":
         kwargs["write_args"] = {"encoding": {name: dict(PACKING)}}
+    elif case["packed"] == "write_call":
+        write_call = {"encoding": {name: dict(PACKING)}}
     option = case["option"]
     if option == "fields":
         kwargs["read_args"] = {"fields": ["ref", name]}
@@ -294,7 +385,7 @@ def nc_setup(case):
         expected = ds.rename({"ref": "renamed"})
     elif option == "post_reader":
         kwargs["post_reader"] = tag_reader
-    return ds, kwargs, expected, call_args, name
+    return ds, kwargs, expected, call_args, write_call, name
 
 
 def csv_setup(case):
@@ -312,7 +403,7 @@ def csv_setup(case):
         expected = ds[[case["table"][0]]]
     elif option == "post_reader":
         kwargs["post_reader"] = tag_reader
-    return ds, kwargs, expected, {}, None
+    return ds, kwargs, expected, {}, {}, None
 
 
 def check_case(case, top):
@@ -323,31 +414,43 @@ def check_case(case, top):
     for d in (root, tmp):
         shutil.rmtree(d, ignore_errors=True)
         os.makedirs(d)
-    ds, kwargs, expected, call_args, name = \
+    ds, kwargs, expected, call_args, write_call, name = \
         (nc_setup if fmt == "netcdf" else csv_setup)(case)
     template = REL + case["suffix"]
     parts = case["suffix"].split(".")
+    # (replay files recorded before these two keys existed lack them)
+    over, transparent = case.get("over", False), case.get("transparent", True)
+    if not transparent:
+        kwargs.update(compress=False, decompress=False)
     fs = FileSet(os.path.join(root, template), temp_dir=tmp, **kwargs)
     if type(fs.handler).__name__ != HANDLER[parts[0]]:
         return ("handler/wrong-default-for-suffix", HANDLER[parts[0]],
                 type(fs.handler).__name__, "")
+    rel = fsbuild.render(template, T0, T1)
+    path = os.path.join(root, rel)
     try:
         with controlled():
-            fs[T0:T1] = ds
+            if over:
+                # stored by a fileset without the options of the case (they
+                # name variables that `previous` does not have)
+                FileSet(fs.path, temp_dir=tmp)[T0:T1] = previous(fmt)
+            if write_call:
+                fs.write(ds, path, **write_call)
+            else:
+                fs[T0:T1] = ds
     except Exception as exc:
         return ("exception/%s-write/%s" % (fmt, type(exc).__name__), None,
                 repr(exc)[:300], traceback.format_exc()[-300:])
-    rel = fsbuild.render(template, T0, T1)
     stored = sorted(os.path.relpath(os.path.join(d, n), root)
                     for d, _, names in os.walk(root) for n in names)
     if stored != [rel]:
         return (fmt + "/not-stored-under-the-period-name", [rel], stored, "")
-    path = os.path.join(root, rel)
     with open(path, "rb") as fh:
         head = fh.read(8)
-    if len(parts) == 2 and not head.startswith(MAGIC[parts[1]]):
+    compressed = len(parts) == 2 and head.startswith(MAGIC[parts[1]])
+    if len(parts) == 2 and transparent and not compressed:
         return (fmt + "/suffix-but-not-compressed", parts[1], repr(head), "")
-    if case.get("packed") and len(parts) == 1:
+    if case.get("packed") and not compressed:
         import netCDF4
         with netCDF4.Dataset(path) as nc:
             stored_dtype = str(nc[name].dtype)
@@ -363,6 +466,12 @@ def check_case(case, top):
             with controlled():
                 got = call()
         except Exception as exc:
+            if compressed and not transparent:
+                # the statement asks for the round trip only; the stored
+                # bytes name the cause
+                return (fmt + "/compressed-although-compress-is-false",
+                        "readable with decompress=False", repr(exc)[:300],
+                        api)
             return ("exception/%s-read/%s" % (fmt, type(exc).__name__),
                     None, repr(exc)[:300],
                     api + " " + traceback.format_exc()[-300:])
